@@ -196,6 +196,9 @@ func havocState(d *Device, c *neConfig) *neState {
 		s.aheld[a] = verifrt.Bool(verifrt.N("pre.aheld", a))
 		s.atr[a] = verifrt.Bool(verifrt.N("pre.atr", a))
 		verifrt.Assume(!s.atr[a] || s.aheld[a])
+		// a held action key is tracked, except one whose press was swallowed as the completing press of the exit
+		// sequence (INVt2)
+		verifrt.Assume(!s.aheld[a] || s.atr[a] || c.inExit(actionCodes[a]))
 		if s.aheld[a] {
 			d.keyTracker[actionCodes[a]] = struct{}{}
 		}
@@ -216,6 +219,16 @@ func havocState(d *Device, c *neConfig) *neState {
 	verifrt.Assume(s.mapping < c.M)
 	d.octave, d.semitone, d.channel, d.mapping, d.ccLearning = s.octave, s.semi, s.channel, s.mapping, s.learn
 	return s
+}
+
+// inExit: the key is part of the configured exit sequence.
+func (c *neConfig) inExit(code evdev.EvCode) bool {
+	for i := 0; i < c.exitLen; i++ {
+		if c.exit[i] == code {
+			return true
+		}
+	}
+	return false
 }
 
 // resolve is the reference resolution of a key press in 64-bit arithmetic.
@@ -560,6 +573,7 @@ func neStep(c *neConfig, d *Device, out chan midi.Event, sigs chan os.Signal, s 
 		_, in := d.keyTracker[actionCodes[a]]
 		verifrt.Assert(in == s.aheld[a], "INVk: pressed-key set equals the held keys")
 		verifrt.Assert(!d.actionTracker[actionList[a]] || s.aheld[a], "INVt: tracked action implies held action key")
+		verifrt.Assert(!s.aheld[a] || d.actionTracker[actionList[a]] || c.inExit(actionCodes[a]), "INVt: a held action key is tracked (unless its press completed the exit sequence)")
 	}
 	// ---- C01 quiescence ----
 	anyHeld := false
